@@ -183,3 +183,47 @@ PROPS['C13'] = dict(
     assumptions=COMMON_ASSUME + ['extraction from old handles is exercised under C06 (open finding F2 makes the extractor unusable on classes with redundant-slot nodes)',
                                  'rewrite iterations in long histories: covered by the C15/C03 runs'],
 )
+
+SNAP_RULE = ('corr.snapshot.queries: after a generated history (C01 generator) the private state is dumped through the hook and the '
+             'implementation is asked: ids, is_alive of every id, slots and group size of every live class, find_applied_id of every '
+             'tracked handle and of copies with permuted/renamed arguments, eq of handle pairs, and lookup + shape of probe e-nodes '
+             '(h/k/add/app/lam around handles, plus every e-node listed by enodes()); the Lean snapshot model answers the same queries '
+             'from the dump alone. lookup results are compared by class id and slot set, and additionally the model decides that '
+             'its own result is eq (class symmetries) to the implementation\'s. The state is dumped again afterwards and must be unchanged '
+             'apart from union-find path compression. non-trivial = the state has a non-trivial group or a dead class; distinct = by hash of the case line')
+
+SNAP_OUTPUTS = None
+
+PROPS['C08'] = dict(
+    level='translation_validation',
+    module='SlotVerif.Props.C08',
+    suites=[dict(name='snap', variant='default', shrink=False, quick=dict(count=1200, set={'per_op': 1}), thorough=dict(count=40000, set={'per_op': 1})),
+            dict(name='snap', variant='checks', shrink=False, quick=dict(count=800, set={'per_op': 1}), thorough=dict(count=20000, set={'per_op': 1})),
+            dict(name='hist', variant='checks', shrink=False, quick=dict(count=100, set={'ops': 40}), thorough=dict(count=2000, set={'ops': 120}))],
+    rule='corr.ops.consistent: histories of insertions and unions (C01 generator incl. symmetry / redundancy / self-reference / '
+         'inheritance streams), in the default build and in the build with the crate\'s internal assertions compiled in. After EVERY '
+         'operation, under catch_unwind: EGraph::check(); every e-node listed for a live class looks up to that class; no shape occurs '
+         'in two classes; every e-node mentions all slots of its class; the identity invocation of a live class is canonical; find is '
+         'idempotent on all tracked handles. At the end the state is dumped and judged by the Lean checker checkInv, and the read-only '
+         'functions are compared with the snapshot model (' + SNAP_RULE + '). Long histories (hist suite) run in the checks build too. '
+         'non-trivial = the state has a non-trivial group or a dead class / the history logged shrink or addsym events',
+    trusted_base=EG_TRUST + ['panic-freedom of the mutators is established per run only (catch_unwind), never by theorem'],
+    assumptions=COMMON_ASSUME + ['rewriting and extraction sequences are exercised by the C03/C06/C15 suites; their panics are reported there'],
+)
+
+PROPS['C09'] = dict(
+    level='translation_validation',
+    module='SlotVerif.Props.C09',
+    suites=[dict(name='look', variant='default', comparator='eg', direction=None, shrink=False, quick=dict(count=400), thorough=dict(count=30000)),
+            dict(name='look', variant='checks', comparator='eg', direction=None, shrink=False, quick=dict(count=120), thorough=dict(count=8000)),
+            dict(name='snap', variant='default', shrink=False, quick=dict(count=600), thorough=dict(count=20000))],
+    rule='corr.add.lookup: after a generated history, 6 probe terms from the pools {literally inserted, alpha-renamed, free slots '
+         'renamed, a tracked context rebuilt around the OTHER side of a union (present only through the union), a new context, random}: '
+         'lookup_rec_expr on the untouched e-graph (state dumped before/after: unchanged modulo path compression), then add_expr. '
+         'Predicates on the implementation: lookup is Some exactly when insertion creates no class and no e-node; lookup eq add; '
+         'add(t·ρ) eq add(t)·ρ for a random injective renaming ρ of the free slots. Compared with the Lean oracle: represented? and '
+         'the number of slots of the returned invocation (= free slots minus redundant ones). Plus ' + SNAP_RULE +
+         ' non-trivial (look) = the case has a via-union or alpha probe',
+    trusted_base=EG_TRUST,
+    assumptions=COMMON_ASSUME,
+)
